@@ -47,7 +47,9 @@ fn flag_string(mut idx: u64) -> String {
     gen::tokens_to_string(&FLAGS2, &d)
 }
 
-const INPUTS: [&str; 17] = ["", "a", "b", "ab", "ba", "aa", "^", "$", "^a", "a$", "^a$", "1", "a\nb", "\u{3b1}", "A", "a\rb", "aB\n"];
+const INPUTS: [&str; 24] = [
+    "", "a", "b", "ab", "ba", "aa", "^", "$", "^a", "a$", "^a$", "1", "a\nb", "\u{3b1}", "A", "a\rb", "aB\n", "aba", "abab", "aab", "abb", "abac", "bab", "aabab",
+];
 
 impl Check for C17 {
     fn id(&self) -> &'static str {
